@@ -21,7 +21,8 @@
          tunnel connection closed by mitmproxy.
      S4  Once the tunnel is open it is transparent: what the peer sends after the handshake reaches the layer below
          as data of the inner connection, unaltered, in order, exactly once, and nothing of the handshake does; the
-         peer's close is forwarded once, after the data that preceded it; SendData / CloseConnection / half-close
+         peer's close is forwarded once, after the data that preceded it (the ConnectionClosed that follows mitmproxy's
+         own close may be forwarded too, at most once); SendData / CloseConnection / half-close
          of the inner connection come out as the same command for the tunnel connection, in order, exactly once;
          commands for other connections pass unchanged; nothing else is written to or closes the tunnel connection.
      S5  HTTP CONNECT: the http_connect_upstream hook fires once per handshake, before the request; the request is
@@ -54,7 +55,7 @@ MonInit == [bad |-> <<>>, wit |-> {}, cfg |-> NoCfg,
             pend |-> <<>>,       \* events for the layer below that it has not handled yet: <<kind, id, flag>>
             owed |-> <<>>,       \* what the commands of the layer below must come out as
             dl |-> 0, rx |-> 0,  \* tunnel payload bytes handed to mitmproxy / handled by the layer below
-            pclose |-> FALSE,    \* a close of the open tunnel was delivered and is owed to the layer below
+            pclose |-> "no",     \* close of the open tunnel delivered, to be forwarded: no | must (peer) | may (echo of an own close)
             fclosed |-> FALSE,   \* the failure of this handshake was followed by a close command
             peerfin |-> FALSE, half |-> FALSE, echo |-> FALSE]
 
@@ -73,7 +74,7 @@ Quiet(m) ==
   ELSE IF Held(m) \/ m.cwait THEN <<>>
   ELSE IF m.pend # <<>> THEN <<"X05.event_delayed_or_lost", Head(m.pend)[1]>>
   ELSE IF m.hs = "ok" /\ m.rx < m.dl THEN <<"X05.tunnel_data_lost">>
-  ELSE IF m.pclose THEN <<"X05.close_not_forwarded">>
+  ELSE IF m.pclose = "must" THEN <<"X05.close_not_forwarded">>
   ELSE <<>>
 
 PendFlag(m) == IF m.hs \in {"pre", "await"} /\ ~m.cwait THEN "buffered"
@@ -117,7 +118,7 @@ In(m, ev) ==
          LET m1 == [m0 EXCEPT !.peerfin = ~ev.echo, !.echo = ev.echo,
                               !.wit = @ \cup (IF m.hookwait THEN {"close_during_hook"} ELSE {})] IN
          IF m.hs \in {"pre", "await"} THEN [m1 EXCEPT !.hs = "failed", !.cause = "closed"]
-         ELSE IF m.hs = "ok" THEN [m1 EXCEPT !.pclose = TRUE]
+         ELSE IF m.hs = "ok" /\ m.pclose = "no" THEN [m1 EXCEPT !.pclose = IF ev.echo THEN "may" ELSE "must"]
          ELSE m1
     [] OTHER -> m0
 
@@ -140,7 +141,7 @@ ChildCmd(m, m1, ev) ==
     [] ev.op = "echo" -> Owe(m1, OSend("client", ev.id))
     [] ev.op = "open" ->
          [Owe(m1, OOpen) EXCEPT !.cwait = TRUE, !.hs = "opening", !.cause = "", !.hk = "idle", !.fclosed = FALSE,
-                               !.pclose = FALSE, !.peerfin = FALSE, !.half = FALSE, !.echo = FALSE,
+                               !.pclose = "no", !.peerfin = FALSE, !.half = FALSE, !.echo = FALSE,
                                !.wit = @ \cup (IF m.hs # "none" THEN {"reopen"} ELSE {})]
     [] OTHER -> m1
 
@@ -164,9 +165,9 @@ Child(m, ev) ==
          ELSE IF ev.off + ev.n > m.dl THEN [m EXCEPT !.bad = <<"X05.tunnel_data_mismatch", "invented">>]
          ELSE [m EXCEPT !.rx = @ + ev.n, !.wit = @ \cup {"tunnel_data"}]
     [] ev.ev = "tclose" ->
-         IF ~m.pclose THEN [m EXCEPT !.bad = <<"X05.spurious_close", m.hs>>]
+         IF m.pclose \notin {"must", "may"} THEN [m EXCEPT !.bad = <<"X05.spurious_close", m.hs>>]
          ELSE IF m.rx < m.dl THEN [m EXCEPT !.bad = <<"X05.close_before_preceding_data">>]
-         ELSE LET m1 == [m EXCEPT !.pclose = FALSE,
+         ELSE LET m1 == [m EXCEPT !.pclose = "done",
                                   !.wit = @ \cup (IF m.echo THEN {"echo_close_forwarded"} ELSE {"peer_close_forwarded"})] IN
               IF Get(ev, "re", FALSE) THEN Owe(m1, OClose("tunnel", FALSE)) ELSE m1
     [] ev.ev = "reply" ->
